@@ -39,7 +39,8 @@ def slots(roles, visits):
     for i, (r, v) in enumerate(zip(roles, visits)): d['ROLE%d' % i] = r; d['NV%d' % i] = v
     return d
 SL2_QUICK = [slots(r, (1, 1)) for r in [(1, 0), (1, 1), (0, 0)]]
-SL2_THOROUGH = SL2_QUICK + [slots(r, v) for r in [(1, 0), (1, 1), (0, 0)] for v in [(2, 1), (2, 2)]]
+SL2_THOROUGH = SL2_QUICK + [slots(r, (2, 1)) for r in [(1, 0), (1, 1), (0, 0)]]
+SL2_REVISIT = [slots(r, (2, 2)) for r in [(1, 0), (1, 1), (0, 0)]]
 SL3 = [slots(r, (1, 1, 1)) for r in [(1, 1, 0), (1, 0, 0), (1, 1, 1), (0, 0, 0)]]
 
 # ---- isolation scenarios: SRC 0 own pool / 1 victim pool: head position H, hole pattern PRES
@@ -51,11 +52,11 @@ SER_BOUNDS = {'soft limit': '0..INT_MAX', 'total request': '0..INT_MAX', 'delta 
 HARNESSES = [
   dict(name='serializer_hist', unit='mkt', harness='h_serializer.c', defines={'MODE': 0},
        scenarios=[{'PART': 0}, {'PART': 1, 'NOPS': 3}], scenarios_thorough=[{'PART': 0}, {'PART': 1, 'NOPS': 5}],
-       cbmc=['--unwind', '8'] + FS, timeout=1200,
+       cbmc=['--unwind', '8', '--object-bits', '10'] + FS, timeout=1200,
        desc='limit_delta lemma (every int) and NOPS symbolic operations (update / set_active_num_workers / mandatory request +-1, kind symbolic) on a freshly constructed thread_request_serializer_proxy: threads requested from the dispatcher == min(total demand, effective soft limit); mandatory-concurrency flag == (limit 0 and enqueued work)',
        bounds=dict(SER_BOUNDS, ops='3 quick / 5 thorough')),
   dict(name='serializer_step', unit='mkt', harness='h_serializer.c', defines={'MODE': 1},
-       scenarios=[{'OP': o} for o in range(4)], cbmc=['--unwind', '8'] + FS, timeout=1200,
+       scenarios=[{'OP': o} for o in range(4)], cbmc=['--unwind', '8', '--object-bits', '10'] + FS, timeout=1200,
        desc='one operation (OP 0 update, 1 set limit, 2/3 mandatory +-1) from an ARBITRARY proxy state satisfying the invariant (established by the constructor, preserved by every operation): same oracle, full int range',
        bounds=SER_BOUNDS),
   dict(name='allot_step', unit='mkt', harness='h_allot.c', defines={'NC': 3, 'VMAX': 7, 'LMAX': 1 << 20, 'MODE': 1},
@@ -76,19 +77,28 @@ HARNESSES = [
        cbmc=['--unwind', '12', '--object-bits', '10', '--external-sat-solver', 'kissat'], timeout=900,
        desc='arena_slot::get_task (own pool) / steal_task (victim pool) on a pool of 3 entries with symbolic 64-bit isolation tags and a symbolic waiter tag: the returned task carries the waiter tag (or the waiter is not isolated), it is the newest (owner) / oldest (thief) eligible one, every skipped task stays in the pool in order, skipped work is re-advertised',
        bounds={'pool entries': 3, 'tags / waiter tag': 'any 64-bit word (symbolic)', 'head position, hole pattern': 'concrete per query', 'proxies in the pool': 'none', 'threads': 'sequential'}),
-  dict(name='slots_2t', unit='slots2', harness='h_slots.c', defines={'NT': 2, 'NSLOTS': 3, 'NRES': 1, 'ROUNDS': 2},
-       scenarios=SL2_QUICK, scenarios_thorough=SL2_THOROUGH, cbmc=['--unwind', '8', '--object-bits', '12'], timeout=2400,
+  dict(name='slots_2t', unit='slots2', harness='h_slots.c', defines={'NT': 2, 'NSLOTS': 3, 'NRES': 1, 'ROUNDS': 1},
+       scenarios=SL2_QUICK, scenarios_thorough=SL2_THOROUGH, cbmc=['--unwind', '8', '--object-bits', '12'], timeout=1200,
+       thorough_override={'defines': {'NT': 2, 'NSLOTS': 3, 'NRES': 1, 'ROUNDS': 2}, 'timeout': 3600},
        desc='2 threads (worker: try_join + occupy_free_slot<true> + on_thread_leaving; external: occupy_free_slot<false>) entering and leaving a 3-slot arena with 1 reserved slot under every interleaving: slot indices distinct and < num_slots, workers never in the reserved slot, my_limit covers every occupied slot, truthful failure, reference word restored',
-       bounds={'threads': 2, 'slots': 3, 'reserved': 1, 'free_rounds': 2, 'forced_rounds': 2, 'loop unroll': 3, 'visits per thread': '1 quick, <= 2 thorough',
+       bounds={'threads': 2, 'slots': 3, 'reserved': 1, 'free_rounds': '1 quick / 2 thorough', 'forced_rounds': 2, 'loop unroll': 3, 'visits per thread': '1 quick; thorough also (2,1)',
                'symbolic': 'schedule, slot hints, RNG state, allotment, foreign-occupied slots'}),
   dict(name='slots_3t', unit='slots3', harness='h_slots.c', defines={'NT': 3, 'NSLOTS': 3, 'NRES': 1, 'ROUNDS': 1},
-       scenarios=SL3[:1], scenarios_thorough=SL3, cbmc=['--unwind', '8', '--object-bits', '12'], timeout=2400,
-       thorough_override={'defines': {'NT': 3, 'NSLOTS': 3, 'NRES': 1, 'ROUNDS': 2}, 'timeout': 3600},
+       scenarios=SL3[:1], scenarios_thorough=SL3, cbmc=['--unwind', '8', '--object-bits', '12'], timeout=1200,
+       thorough_override={'timeout': 3600},
        desc='3 threads entering and leaving a 3-slot arena (1 reserved): same oracle as slots_2t',
-       bounds={'threads': 3, 'slots': 3, 'reserved': 1, 'free_rounds': '1 quick / 2 thorough', 'forced_rounds': 2, 'loop unroll': 3}),
+       bounds={'threads': 3, 'slots': 3, 'reserved': 1, 'free_rounds': 1, 'forced_rounds': 2, 'loop unroll': 3, 'role combinations': '1 quick / 4 thorough'}),
+  dict(name='slots_2t_revisit', unit='slots2', harness='h_slots.c', defines={'NT': 2, 'NSLOTS': 3, 'NRES': 1, 'ROUNDS': 1}, tiers=['thorough'],
+       scenarios=SL2_REVISIT, cbmc=['--unwind', '8', '--object-bits', '12'], timeout=3600,
+       desc='2 threads, each visiting the arena twice (second search starts from the slot hint left by the first visit)',
+       bounds={'threads': 2, 'slots': 3, 'reserved': 1, 'visits per thread': 2, 'free_rounds': 1, 'forced_rounds': 2}),
   dict(name='slots_2res', unit='slots2', harness='h_slots.c', defines={'NT': 2, 'NSLOTS': 3, 'NRES': 2, 'ROUNDS': 2}, tiers=['thorough'],
-       scenarios=SL2_QUICK + [slots((1, 0), (2, 2))], cbmc=['--unwind', '8', '--object-bits', '12'], timeout=3600,
+       scenarios=SL2_QUICK + [slots((1, 0), (2, 1))], cbmc=['--unwind', '8', '--object-bits', '12'], timeout=3600,
        desc='2 threads, 3-slot arena with 2 reserved slots (one worker slot)', bounds={'threads': 2, 'slots': 3, 'reserved': 2, 'free_rounds': 2, 'forced_rounds': 2}),
+  dict(name='slots_mand', unit='slots2', harness='h_slots.c', defines={'NT': 2, 'NSLOTS': 1, 'NRES': 1, 'ROUNDS': 2}, tiers=['thorough'],
+       scenarios=SL2_QUICK, cbmc=['--unwind', '8', '--object-bits', '12'], timeout=3600,
+       desc='one-thread arena task_arena(1, 1): 2 slots, the second one only for the mandatory (enqueue) worker: same oracle (at most max_concurrency + 1 threads, worker never in slot 0)',
+       bounds={'threads': 2, 'slots': '1 reserved + 1 mandatory-worker slot', 'free_rounds': 2, 'forced_rounds': 2}),
 ]
 MANIFEST = dict(
   level_text='Bounded symbolic execution / bounded model checking of the real arena and worker-budget code. (1) Worker budget: one real operation (threading_control_impl::adjust_demand or set_active_num_workers through the thread_request_serializer proxy, market::adjust_demand, arena::update_request and market::update_allotment) from an arbitrary reachable market state of 3 arenas over <=3 priority levels with symbolic demands <=7 (15 thorough) and any soft limit: allotments sum to min(total demand, limit) (exactly one mandatory worker at limit 0, to an arena with enqueued work), none exceeds its demand, higher priority is saturated first, split is proportional, and the number of threads requested from RML equals min(total, effective limit) for every int-valued total/limit/delta (inductive step over the serializer invariant). (2) Slots: for 2-3 threads entering and leaving one arena (workers via try_join/occupy_free_slot<true>/on_thread_leaving, externals via occupy_free_slot<false>) every interleaving within the round bound: slot indices pairwise distinct and below num_slots, workers never in reserved slots, my_limit covers occupied slots, reference word restored. (3) Isolation: arena_slot::get_task and steal_task on pools of 3 entries with symbolic 64-bit isolation tags only return tasks of the waiter\'s isolation scope and leave every skipped task in place.',
@@ -100,7 +110,7 @@ OUTSIDE = [
   'global_control (std::set of controls lives in libstdc++), observer entry/exit pairing, the end-to-end "at most L-1 workers execute user work" statement (needs RML + dispatcher)',
   'concurrent aggregation in thread_request_serializer::update (several threads adding to the packed pending counter at once): sequential path only; the packed 32-bit delta field holds any single int, sums of simultaneously pending deltas must stay inside it',
   'market with more than 3 arenas or demands above 15; tcm_adaptor (TCM permit manager)',
-  'more than 3 threads / 3 slots in the slot harness; non-TSO weak memory',
+  'more than 3 threads / 3 slots in the slot harness; 3 threads with more than 1 free round, two visits per thread with 2 free rounds (1.4-1.6 M variables, 30-60 min each on the shared machine, one run killed) ; non-TSO weak memory',
 ]
 STUBS = [
   'thread_dispatcher::adjust_job_count_estimate(delta): ghost counter J (what RML is asked for)',
